@@ -132,6 +132,19 @@ Section Spec.
 
 End Spec.
 
+(* the resize policy read from the source is admissible: whenever a rehash is decided or declined,
+   the slot count stays above the item count.  Re-proved for the generated expressions. *)
+Lemma grow_trigger_ge n : n <= table_grow_trigger n.
+Proof. unfold table_grow_trigger. lia. Qed.
+Lemma grow_target_ge n : n <= table_grow_target n.
+Proof. unfold table_grow_target. lia. Qed.
+Lemma shrink_target_ge n : n <= table_shrink_target n.
+Proof. unfold table_shrink_target. lia. Qed.
+
+Lemma resize_policy_admissible_proof : forall n : nat,
+  n <= table_grow_trigger n /\ n <= table_grow_target n /\ n <= table_shrink_target n.
+Proof. intros n. split; [apply grow_trigger_ge|split; [apply grow_target_ge|apply shrink_target_ge]]. Qed.
+
 Section TP.
   Variables K V : Type.
   Variable keq : K -> K -> bool.
@@ -336,10 +349,12 @@ Section TP.
       (forall e, In e (t_iter t2) <-> In e (t_iter t)) /\ nitems t2 = nitems t.
   Proof.
     intros Hp. pose proof Hp as [Hc Hn]. unfold TableModel.resize_more.
-    pose proof (ideal_gt (nitems t)) as Hid. fold ideal in Hid.
-    destruct (Nat.ltb_spec (nslots t) (ideal (nitems t))) as [Hlt|Hge].
-    - destruct (t_rehash_spec t (ideal (nitems t)) (inv_uq t Hp) ltac:(lia)) as [t2 [Hr [Hi [_ [Hit Hni]]]]].
-      exists t2. split; [exact Hr|]. split; [exact Hi|]. split; [exact Hit|lia].
+    pose proof (ideal_gt (table_grow_trigger (nitems t))) as Hid. fold ideal in Hid.
+    pose proof (ideal_gt (table_grow_target (nitems t))) as Hit. fold ideal in Hit.
+    pose proof (grow_trigger_ge (nitems t)) as Hg1. pose proof (grow_target_ge (nitems t)) as Hg2.
+    destruct (Nat.ltb_spec (nslots t) (ideal (table_grow_trigger (nitems t)))) as [Hlt|Hge].
+    - destruct (t_rehash_spec t (ideal (table_grow_target (nitems t))) (inv_uq t Hp) ltac:(lia)) as [t2 [Hr [Hi [_ [Hit2 Hni]]]]].
+      exists t2. split; [exact Hr|]. split; [exact Hi|]. split; [exact Hit2|lia].
     - exists t. split; [reflexivity|]. split; [|split; [tauto|reflexivity]].
       split; [exact Hp|]. left. lia.
   Qed.
@@ -349,10 +364,11 @@ Section TP.
       (forall e, In e (t_iter t2) <-> In e (t_iter t)) /\ nitems t2 = nitems t.
   Proof.
     intros Hp Hload. pose proof Hp as [Hc Hn]. unfold TableModel.resize_less.
-    pose proof (ideal_gt (nitems t)) as Hid. fold ideal in Hid.
-    destruct (Nat.ltb_spec (ideal (nitems t)) (nslots t)) as [Hlt|Hge].
-    - destruct (t_rehash_spec t (ideal (nitems t)) (inv_uq t Hp) ltac:(lia)) as [t2 [Hr [Hi [_ [Hit Hni]]]]].
-      exists t2. split; [exact Hr|]. split; [exact Hi|]. split; [exact Hit|lia].
+    pose proof (ideal_gt (table_shrink_target (nitems t))) as Hit. fold ideal in Hit.
+    pose proof (shrink_target_ge (nitems t)) as Hg2.
+    destruct (Nat.ltb_spec (ideal (table_shrink_trigger (nitems t))) (nslots t)) as [Hlt|Hge].
+    - destruct (t_rehash_spec t (ideal (table_shrink_target (nitems t))) (inv_uq t Hp) ltac:(lia)) as [t2 [Hr [Hi [_ [Hit2 Hni]]]]].
+      exists t2. split; [exact Hr|]. split; [exact Hi|]. split; [exact Hit2|lia].
     - exists t. split; [reflexivity|]. split; [|split; [tauto|reflexivity]].
       split; [exact Hp|]. left. lia.
   Qed.
@@ -802,12 +818,15 @@ Qed.
 Local Open Scope Z_scope.
 Definition nonstrict_swap (j p : nat) : bool := (p <=? j)%nat.
 Definition witness_ops : list (op Z Z) := [TSet Z Z 55 1; TSet Z Z 110 2; TSet Z Z 55 3].
+(* the witnesses below are computed with LITERAL sizes (prime table prefix and load factor 9/10 of the
+   pinned source), so that they do not move when the tuning of the working tree does *)
+Definition pinned_primes : list N := [0; 1; 5; 11; 23; 53]%N.
 
 (* with the pinned rule the refinement fails for the identity hash: keys 55 and 110 share a
    home slot (both are 0 modulo 5); updating the older one inserts it a second time *)
 Lemma T_nonstrict_refuted :
   exists (hash : Z -> N) (ops : list (op Z Z)),
-    let t := t_run Z Z Z.eqb hash nonstrict_swap table_primes table_load_num table_load_den ops (T_empty Z Z) in
+    let t := t_run Z Z Z.eqb hash nonstrict_swap pinned_primes 9 10 ops (t_empty Z Z pinned_primes 9 10) in
     let m := spec_run Z Z Z.eqb ops [] in
     t_len Z Z t = 3%nat /\ length m = 2%nat /\
     map fst (t_iter Z Z t) = [55; 110; 55] /\ map fst m = [55; 110].
@@ -816,6 +835,15 @@ Proof. exists Z.to_N, witness_ops. vm_compute. repeat split; reflexivity. Qed.
 (* non-vacuity: a reachable table with three keys sharing the LAST slot of five as home (so two
    of them wrapped around to slots 0 and 1), satisfying the invariant and the relation *)
 Definition example_ops : list (op Z Z) := [TSet Z Z 4 1; TSet Z Z 9 2; TSet Z Z 14 3; TSet Z Z 3 4].
+Definition strict_swap (j p : nat) : bool := (p <? j)%nat.
+
+Lemma pinned_ideal_gt : forall n : nat, (n < ideal_size pinned_primes 9 10 n)%nat.
+Proof.
+  intros n. unfold ideal_size.
+  assert (H : (N.of_nat n < ideal_size_N pinned_primes 9 10 (N.of_nat n))%N)
+    by (apply ideal_N_gt; vm_compute; reflexivity).
+  lia.
+Qed.
 
 Lemma T_inv_nonvacuous :
   exists (t : table Z Z) (m : amap Z Z),
@@ -823,8 +851,11 @@ Lemma T_inv_nonvacuous :
     slots Z Z t = [Some (4%nat, (9, 2)); Some (4%nat, (14, 3)); None; Some (3%nat, (3, 4)); Some (4%nat, (4, 1))] /\
     m = [(3, 4); (14, 3); (9, 2); (4, 1)].
 Proof.
-  exists (T_run Z Z Z.eqb Z.to_N example_ops), (spec_run Z Z Z.eqb example_ops []).
-  destruct (T_refines_map Z Z Z.eqb Z.to_N Z.eqb_eq example_ops (TSelfCopy Z Z)) as [Hi [Hr _]].
+  exists (t_run Z Z Z.eqb Z.to_N strict_swap pinned_primes 9 10 example_ops (t_empty Z Z pinned_primes 9 10)),
+         (spec_run Z Z Z.eqb example_ops []).
+  destruct (refines_map Z Z Z.eqb Z.to_N strict_swap pinned_primes 9 10 Z.eqb_eq
+              (fun j p H => proj1 (Nat.ltb_lt p j) H) (fun j p H => proj1 (Nat.ltb_ge p j) H)
+              pinned_ideal_gt example_ops (TSelfCopy Z Z)) as [Hi [Hr _]].
   split; [exact Hi|]. split; [exact Hr|]. split; vm_compute; reflexivity.
 Qed.
 
